@@ -52,7 +52,9 @@ def layout_tables(model: Model, cname: str):
     gs = ev.expr(kw["gate_sequences"], fr)
     if gs[0] != "list":
         raise AnalysisError(f"{cname}: gate_sequences is not a list literal")
-    for node, lay in zip(kw["gate_sequences"].elts, gs[1]):
+    gnode = kw["gate_sequences"]
+    nodes = list(gnode.elts) if isinstance(gnode, ast.List) and len(gnode.elts) == len(gs[1]) else [gnode] * len(gs[1])
+    for node, lay in zip(nodes, gs[1]):
         if lay[0] != "new" or lay[1] != "GateSequenceLayer":
             raise AnalysisError(f"{cname}: layer literal not recognised: {show(lay)}")
         d = dict(lay[2])
